@@ -233,7 +233,10 @@ fn eval_power_sweep<T: Int>(c: &(u64, u32), obs: &mut Obs) -> Result<(), String>
         if base == 2 {
             ck!(format!("checked_ilog2(2^{k} + {d})"), outcome(|| x.checked_ilog2()), Outcome::Returned(Some(e)));
         }
-        if fits::<T>(&zb) {
+        // the generic logarithm to base 2 costs k long divisions: on types wider than 1088 bits it is
+        // taken at every 16th exponent (checked_ilog2 at every one)
+        let sparse = base == 2 && T::W > 1100 && k % 16 != 0 && (k as u64) + 4 < maxbits;
+        if fits::<T>(&zb) && !sparse {
             ck!(format!("checked_ilog({base}^{k} + {d}, {base})"), outcome(|| x.checked_ilog(b)), Outcome::Returned(Some(e)));
         }
     }
@@ -269,6 +272,17 @@ where
             })
         };
         ctx.enumerate("u", "every power b^k that fits (and b^k +- 1) for the swept bases, unsigned", all(), eval_power_sweep::<U>);
+    }));
+    jobs.push(Job::new(job_name::<U>("ilog_power_sweep_i"), move |ctx| {
+        let w = U::W;
+        let bases: Vec<u64> = if w > 1100 { vec![10, 2] } else { vec![10, 2, 3, 7, 255, 65537, (1u64 << 32) + 15] };
+        let all = move || {
+            let bases = bases.clone();
+            bases.into_iter().flat_map(move |b| {
+                let kmax = (w as f64 / (b as f64).log2()).floor() as u32 + 1;
+                (0..=kmax).map(move |k| (b, k))
+            })
+        };
         ctx.enumerate("i", "every power b^k that fits (and b^k +- 1) for the swept bases, signed", all(), eval_power_sweep::<I>);
     }));
     jobs.push(Job::new(job_name::<U>("i/ilog"), move |ctx| {
